@@ -181,3 +181,9 @@ def streams(tier, rng):
     yield {'name': 'grammar-with-layout', 'op': 'C14', 'cases': (case(rng) for _ in range(n))}
     yield {'name': 'stored-lines', 'op': 'C14', 'cases': stored_lines()}
     yield {'name': 'malformed-clauses', 'op': 'C14e', 'cases': bad_clauses(rng, 2000 if tier == 'quick' else 30000)}
+
+
+def normalize(op, inp):
+    if op == 'C14e':
+        return inp
+    return [inp[0], render(inp[0])]
